@@ -57,3 +57,16 @@ PROPS = {
                      "(proved); permutation => equal multisets is the textbook meta-step"],
     ),
 }
+
+
+# dependency closures of the generated-code properties: the library contracts their abstract
+# writer / reader restate are discharged against the real bodies in the same check run
+CLOSURES = {
+    "C02": dict(modules=["contracts.number", "contracts.strings", "contracts.writer"], title="closure: EoWriter"),
+    "C16": dict(modules=["contracts.number", "contracts.strings", "contracts.writer"], title="closure: EoWriter"),
+    "C03": dict(modules=["contracts.number", "contracts.strings", "contracts.reader"], title="closure: EoReader"),
+    "C15": dict(modules=["contracts.number", "contracts.strings", "contracts.writer", "contracts.reader"],
+                title="closure: EoWriter + EoReader"),
+    "C01": dict(modules=["contracts.number", "contracts.strings", "contracts.writer", "contracts.reader",
+                         "lemmas.c04", "lemmas.c06"], title="closure: writer, reader, pair lemmas"),
+}
